@@ -127,6 +127,10 @@ def build(kind, D, rng, key_int):
         return f
 
     if kind == "max_pool_fn":
+        if rng.integers(0, 3) == 0:
+            # non-default argument: an explicit comparator image (here the squared norm, which moves with the image)
+            cfg["comparator"] = "explicit"
+            return per_image(lambda ch, k, p, x: geom.max_pool(D, ch, patch, False, comparator_image=jnp.sum(ch.reshape(ch.shape[:D] + (-1,)) ** 2, axis=-1))), sig, sp, cfg, patch, False
         return per_image(lambda ch, k, p, x: geom.max_pool(D, ch, patch, True)), sig, sp, cfg, patch, False
     if kind == "average_pool_fn":
         return per_image(lambda ch, k, p, x: geom.average_pool(D, ch, patch)), sig, sp, cfg, patch, False
